@@ -46,9 +46,48 @@ theorem envelope_kraus_strings :
     (plansOf "photon_weave/state/envelope.py" "apply_kraus").map canon
       = [canon (applyOperatorMatrix 1 [0]), canon (permuteAxes (applyOperatorMatrix 2 [0]) 1 [0, 2, 1, 3])] := by decide
 
+/-- apply an axis permutation to the label lists of *all* operands and to the output -/
+def permuteAll (p : Plan) (perm : List Nat) : Plan :=
+  (p.1.map (fun ls => perm.map (fun a => ls.getD a 0)), perm.map (fun a => p.2.getD a 0))
+
+/-- `Envelope.measure_POVM` on both members (probabilities and post-measurement state): the generated
+plan for two members and the ordered operand list `[0, 1]`, with the axes of the operator, of the
+state and of the result interleaved `[0, 2, 1, 3]` as the code transposes them.  (The literal that
+stood here before the repair `1af2029` contracted the operator's *row* axis of the second member and
+fails this theorem.) -/
+theorem envelope_povm_two_member_string :
+    canon ((plansOf "photon_weave/state/envelope.py" "measure_POVM").getD 0 ([], []))
+      = canon (permuteAll (applyOperatorMatrix 2 [0, 1]) [0, 2, 1, 3]) := by decide
+
+/-- … and the literal found at the pinned commit (`eacf,abcd,gbhd->egfh`) is *not* that plan -/
+theorem envelope_povm_old_literal_is_not_the_plan :
+    canon (([[0, 1, 2, 3], [1, 4, 2, 5], [6, 4, 7, 5]], [0, 6, 3, 7]) : Plan)
+      ≠ canon (permuteAll (applyOperatorMatrix 2 [0, 1]) [0, 2, 1, 3]) := by decide
+
+/-- permute the axes of operand `k` only -/
+def permuteOperand (p : Plan) (k : Nat) (perm : List Nat) : Plan :=
+  (p.1.mapIdx (fun i ls => if i = k then perm.map (fun a => ls.getD a 0) else ls), p.2)
+
+/-- the two partial-trace literals of `Envelope.measure_POVM` (reduced state of the first / second
+member of the interleaved tensor) are the generated partial-trace plans for two members -/
+theorem envelope_povm_trace_strings :
+    canon ((plansOf "photon_weave/state/envelope.py" "measure_POVM").getD 2 ([], []))
+        = canon (permuteOperand (traceOutMatrix 2 [0]) 0 [0, 2, 1, 3]) ∧
+    canon ((plansOf "photon_weave/state/envelope.py" "measure_POVM").getD 3 ([], []))
+        = canon (permuteOperand (traceOutMatrix 2 [1]) 0 [0, 2, 1, 3]) := by decide
+
+/-- the one-member literal of `Envelope.measure_POVM` is the same plan as in `apply_kraus` -/
+theorem envelope_povm_one_member_string :
+    canon ((plansOf "photon_weave/state/envelope.py" "measure_POVM").getD 1 ([], []))
+      = canon (permuteAxes (applyOperatorMatrix 2 [0]) 1 [0, 2, 1, 3]) := by decide
+
 end PW.Props.Strings
 #print axioms PW.Props.Strings.own_state_vector_string
 #print axioms PW.Props.Strings.own_state_strings_agree
 #print axioms PW.Props.Strings.envelope_vector_string
 #print axioms PW.Props.Strings.envelope_matrix_string
 #print axioms PW.Props.Strings.envelope_kraus_strings
+#print axioms PW.Props.Strings.envelope_povm_two_member_string
+#print axioms PW.Props.Strings.envelope_povm_one_member_string
+#print axioms PW.Props.Strings.envelope_povm_old_literal_is_not_the_plan
+#print axioms PW.Props.Strings.envelope_povm_trace_strings
